@@ -606,9 +606,7 @@ class Executor:
         fr.prev = fr.block
         fr.block = target
         fr.ip = 0
-        if (fr.fn["name"], target) in self.stop_blocks and len(path.frames) == 1:
-            path.outcome = ("stop", target)
-            return
+        hit_stop = (fr.fn["name"], target) in self.stop_blocks and len(path.frames) == 1
         ms = path.dstate.get("merge_stops")
         hit_merge = bool(ms) and ms[-1] == (len(path.frames), fr.fn["name"], target)
         # phis
@@ -627,6 +625,8 @@ class Executor:
         fr.ip = n
         if hit_merge:
             path.outcome = ("merge-stop", target)
+        if hit_stop:
+            path.outcome = ("stop", target)
 
     def ret(self, path, vals):
         fr = path.frames.pop()
@@ -669,7 +669,7 @@ class Executor:
             env[ins["name"]] = Ptr(x.obj, x.path + (ins["field"],))
         elif op == "IndexAddr":
             x = V(ins["x"])
-            i = V(ins["index"])
+            i = self.index_int(path, V(ins["index"]), ins)
             xt = T(ins["xtype"]).u
             if isinstance(x, SliceV):
                 self.bounds(path, i, x.len, "index out of range")
@@ -738,7 +738,7 @@ class Executor:
             env[ins["name"]] = self.do_slice(path, fr, ins)
         elif op == "Index":
             x = V(ins["x"])
-            i = V(ins["index"])
+            i = self.index_int(path, V(ins["index"]), ins)
             n = len(x)
             self.bounds(path, i, n, "index out of range")
             if type(i) is int:
@@ -790,6 +790,19 @@ class Executor:
         else:
             raise ExecError("unsupported instruction %s in %s: %s" % (op, fr.fn["name"], ins.get("text", "")))
         fr.ip += 1
+
+    def index_int(self, path, i, ins):
+        """index operand converted to int (Go allows any integer type as index)"""
+        if type(i) is int:
+            return i
+        it = ins.get("itype")
+        if it is None:
+            return i
+        ft = self.prog.T(it)
+        tt = self.prog.T("int")
+        if ft.int_info() == tt.int_info():
+            return i
+        return self.dom.convert(path, i, ft, tt)
 
     def ite(self, path, c, a, b, ty):
         if c is True:
